@@ -1,7 +1,7 @@
 // C20 harness: real simulations of small generated designs recorded by a real sim::VCDSink and a real
 // vhdl::FileBasedTestbenchRecorder (files in a scratch directory under /var/tmp, deleted afterwards), observed by
 // independent SimulatorCallbacks samplers; the recorded test vectors are replayed into a fresh ReferenceSimulator.
-// Usage: c20 <seed> <ncases> <ncycles> [mode]
+// Usage: c20 <seed> <ncases> <ncycles> [mode] [onlyCase]
 //   mode bit0: allow sub-picosecond WaitFor delays; bit1: allow WaitStable + reads right after power-on (same phase as the power-on SETs);
 //        bit2: allow WaitFor(0) directly after WaitStable (re-enters the time step) and runs that end exactly on a clock edge
 // Protocol per case (names are single tokens, bit strings MSB first):
@@ -26,6 +26,7 @@
 #include <gatery/hlim/NodeGroup.h>
 #include <gatery/hlim/coreNodes/Node_Pin.h>
 #include <gatery/hlim/supportNodes/Node_Memory.h>
+#include <gatery/hlim/coreNodes/Node_Signal.h>
 #include "common.h"
 #include "simhelp.h"
 #include <iostream>
@@ -126,7 +127,7 @@ struct TvObserver : sim::SimulatorCallbacks {
 		if (it == RecAcc::names(rec()).end()) { o << "X S ? unknown-pin -\n"; return; }
 		std::string b;
 		for (size_t i = state.size(); i-- > 0;)
-			b.push_back(!state.get(sim::ExtendedConfig::DEFINED, i) ? 'x' : (state.get(sim::ExtendedConfig::VALUE, i) ? '1' : '0'));
+			b.push_back(state.get(sim::ExtendedConfig::HIGH_IMPEDANCE, i) ? 'z' : !state.get(sim::ExtendedConfig::DEFINED, i) ? 'x' : (state.get(sim::ExtendedConfig::VALUE, i) ? '1' : '0'));
 		o << "X S " << (sim.getCurrentPhase() == sim::WaitClock::DURING) << ' ' << tok(it->second) << ' ' << (b.empty() ? "-" : b) << '\n';
 	}
 	void onSimProcOutputRead(const hlim::NodePort &output, const sim::DefaultBitVectorState &state) override {
@@ -197,10 +198,32 @@ static void replay(hlim::Circuit &circuit, const std::vector<std::string> &lines
 				sim.advance(ticks[ti] - cur); cur = ticks[ti]; ti++;
 			}
 			i += 2;
+			if (getenv("C20_DEBUG")) { // state of all outputs after every ADV
+				o << "D " << nowPs;
+				for (auto &p : outByName) o << ' ' << p.first << '=' << vh::bitsToString(sim.getValueOfOutput(p.second));
+				for (auto &p : inByName) o << ' ' << p.first << '=' << rawBits(sim.getValueOfOutput({.node = p.second, .port = 0}));
+				for (auto &n : circuit.getNodes())
+					if (auto *m = dynamic_cast<hlim::Node_Memory*>(n.get()))
+						o << " mem=" << rawBits(sim.getValueOfInternalState(m, (size_t) hlim::Node_Memory::Internal::data, 0, m->getSize()));
+					else if (auto *sg = dynamic_cast<hlim::Node_Signal*>(n.get()); sg && sg->hasGivenName())
+						o << ' ' << sg->getName() << '=' << rawBits(sim.getValueOfOutput({.node = sg, .port = 0}));
+				o << '\n';
+			}
 		} else if (kw == "SET" && i + 2 < lines.size()) {
 			auto it = inByName.find(lines[i + 1]);
 			if (it == inByName.end()) o << "Q " << k++ << " FAIL set " << tok(lines[i + 1]) << " unknown-pin - " << nowPs << '\n';
-			else { sim.simProcSetInputPin(it->second, sim::convertToExtended(vh::bitsFromString([&] { std::string s = lines[i + 2]; for (auto &c : s) if (c == 'X') c = 'x'; return s; }()))); dirty = true; }
+			else {
+				const std::string &v = lines[i + 2];
+				sim::ExtendedBitVectorState st;
+				st.resize(v.size());
+				for (size_t j = 0; j < v.size(); j++) {
+					char ch = v[v.size() - 1 - j];
+					st.set(sim::ExtendedConfig::DEFINED, j, ch == '0' || ch == '1');
+					st.set(sim::ExtendedConfig::VALUE, j, ch == '1');
+					st.set(sim::ExtendedConfig::HIGH_IMPEDANCE, j, ch == 'Z');
+				}
+				sim.simProcSetInputPin(it->second, st); dirty = true;
+			}
 			i += 3;
 		} else if (kw == "CHECK" && i + 2 < lines.size()) {
 			auto it = outByName.find(lines[i + 1]);
@@ -346,7 +369,8 @@ static void runCase(uint64_t caseId, Rng rng, size_t ncycles, unsigned mode, con
 						if (tinyWaits && r.chance(1, 4)) st.waitFor = CR{r.range(1, 9), 3'000'000'000'000ull * r.range(1, 4)};
 					}
 					for (size_t j = 0; j < isl.inPorts.size(); j++)
-						if (j % nproc == p && r.chance(s == 0 ? 3 : 1, s == 0 ? 4 : 3)) st.sets.push_back({j, randBits(r, isl.inWidths[j])});
+						if (j % nproc == p && r.chance(s == 0 ? 3 : 1, s == 0 ? 4 : 3))
+							st.sets.push_back({j, r.chance(1, 25) ? std::string(isl.inWidths[j], 'z') : randBits(r, isl.inWidths[j])}); // z: stopDriving()
 					st.stable = r.chance(1, 2);
 					if (s == 0 && !powerOnReads) { st.stable = false; }
 					else if (r.chance(2, 3))
@@ -360,7 +384,7 @@ static void runCase(uint64_t caseId, Rng rng, size_t ncycles, unsigned mode, con
 				auto inPorts = isl.inPorts; auto outDrivers = isl.outDrivers;
 				sim.addSimulationProcess([prog, clk, inPorts, outDrivers]() -> SimProcess {
 					for (const Step &st : *prog) {
-						for (auto &s : st.sets) { sim::SigHandle h(inPorts[s.first]); h = vh::bitsFromString(s.second); }
+						for (auto &s : st.sets) { sim::SigHandle h(inPorts[s.first]); if (s.second[0] == 'z') h.stopDriving(); else h = vh::bitsFromString(s.second); }
 						if (st.stable) co_await WaitStable();
 						for (auto j : st.reads) { sim::SigHandle h(outDrivers[j]); (void) h.eval(); }
 						switch (st.wait) {
@@ -439,11 +463,13 @@ static void runCase(uint64_t caseId, Rng rng, size_t ncycles, unsigned mode, con
 int main(int argc, char **argv) {
 	uint64_t seed = vh::argU64(argc, argv, 1, 1), ncases = vh::argU64(argc, argv, 2, 10), ncycles = vh::argU64(argc, argv, 3, 50);
 	unsigned mode = (unsigned) vh::argU64(argc, argv, 4, 0);
+	uint64_t only = vh::argU64(argc, argv, 5, ~0ull); // run just this case of the stream (replaying a single failing case)
 	std::filesystem::path scratch = std::filesystem::path("/var/tmp") / ("verif_c20_" + std::to_string(getpid()) + "_" + std::to_string(seed));
 	std::cout << "# prop=C20 seed=" << seed << " ncases=" << ncases << " ncycles=" << ncycles << " mode=" << mode << "\n";
 	Rng master(seed * 0x9E3779B97F4A7C15ull + 20);
 	for (uint64_t c = 0; c < ncases; c++) {
 		Rng rng = master.fork();
+		if (only != ~0ull && c != only) continue;
 		std::ostringstream os;
 		try {
 			runCase(c, rng, ncycles, mode, scratch, os);
